@@ -111,3 +111,28 @@ def expected_hour(H, is_am, is_pm):
     if h == 24:
         h = 0
     return h
+
+
+def same_timex_fields(a, b):
+    return (a.now == b.now and a.years == b.years and a.months == b.months and a.weeks == b.weeks and a.days == b.days
+            and a.hours == b.hours and a.minutes == b.minutes and a.seconds == b.seconds and a.year == b.year
+            and a.month == b.month and a.day_of_month == b.day_of_month and a.day_of_week == b.day_of_week
+            and a.season == b.season and a.week_of_year == b.week_of_year and a.weekend == b.weekend
+            and a.week_of_month == b.week_of_month and a.part_of_day == b.part_of_day and a.hour == b.hour
+            and a.minute == b.minute and a.second == b.second)
+
+
+def duration_amount(t, unit, prefix):
+    if prefix == 'P':
+        if unit == 'Y':
+            return t.years
+        if unit == 'M':
+            return t.months
+        if unit == 'W':
+            return t.weeks
+        return t.days
+    if unit == 'H':
+        return t.hours
+    if unit == 'M':
+        return t.minutes
+    return t.seconds
